@@ -68,9 +68,10 @@ var kindName = map[string]string{"s": "string", "i": "integer", "f": "float", "b
 var tokOfKind = map[string]string{"s": "string", "i": "number", "f": "number", "b": "boolean", "n": "null", "obj": "object", "arr": "array", "ref": "reference"}
 
 type gen struct {
-	r     *rand.Rand
-	enums [][2]string // named enum rules created for this case
-	stats map[string]int
+	r       *rand.Rand
+	enums   [][2]string      // named enum rules created for this case
+	enumAST map[string]XNode // … and the AST each rule object must report: one child per literal, kind of the literal AS WRITTEN, raw text
+	stats   map[string]int
 }
 
 func (g *gen) stat(s string) { g.stats[s]++ }
@@ -257,6 +258,14 @@ func (g *gen) enumRule(must Lit, allowComments bool) *Rule {
 		}
 		name := fmt.Sprintf("@E%d", len(g.enums)+1)
 		g.enums = append(g.enums, [2]string{name, "[" + strings.Join(parts, ", ") + "]"})
+		exp := XNode{Tok: "array", Type: "enum"}
+		for _, it := range items {
+			exp.Children = append(exp.Children, XNode{Tok: litTok(it.Kind), Type: kindName[it.Kind], Value: it.Raw})
+		}
+		if g.enumAST == nil {
+			g.enumAST = map[string]XNode{}
+		}
+		g.enumAST[name] = exp
 		g.stat("rule_enum_named")
 		return &Rule{Name: "enum", Form: "enumName", Ref: name}
 	}
